@@ -440,7 +440,11 @@ def run(ctx):
             # with nested call points at bound 1 (thorough); the others with nested points at bound 1 / 2
             if focus == fit:
                 return (1, "task") if quick else (1, "entry")
-            return (1, "entry") if quick else (2, "entry")
+            if quick:
+                return (1, "entry")
+            # thorough: bound 2 at task-line granularity on the one-file case, bound 1 with nested points on the
+            # two-file case (bound 2 with nested points was measured at > 2 h)
+            return (2, "task") if case["config"].get("files", "1") == "1" else (1, "entry")
         items2, info = e2_plan(ctx, case, bounds)
         e2_items += items2
         infos.append(info)
